@@ -11,6 +11,7 @@ package main
 import (
 	"bufio"
 	"bytes"
+	"context"
 	"encoding/base64"
 	"encoding/hex"
 	"encoding/json"
@@ -84,6 +85,8 @@ type workReq struct {
 	TCErr    bool // ResolveTotalCount fails
 	TCAsync  bool // ResolveTotalCount answers through apifu.Go
 	Zone     int  // EdgeCursor builds the cursor with NewTimeBasedCursor from a time.Time in this zone (seconds east)
+	First    *int // the first / last arguments of the request, for the field's cost functions
+	Last     *int
 }
 
 type workResp struct {
@@ -93,6 +96,7 @@ type workResp struct {
 	Returns [][]edge    // what the getter answered to each call, in the order it returned the edges
 	Raised  []int       // per call: errNone / errReal / errTypedNil
 	TCCalls int         // calls of ResolveTotalCount
+	Cost    [3]int      // the connection field's Cost: Resolver, Multiplier; the Multiplier of its edges field
 }
 
 // zbig writes an integer of any size.  (internal/sexp prints values below 2^61 in decimal, but the
@@ -127,11 +131,12 @@ type workerState struct {
 	returns [][]edge
 	raised  []int
 	tcCalls int
+	def     *graphql.FieldDefinition
 }
 
 func newAPI(st *workerState) *apifu.API {
 	cfg := &apifu.Config{}
-	cfg.AddQueryField("connection", apifu.TimeBasedConnection(&apifu.TimeBasedConnectionConfig{
+	st.def = apifu.TimeBasedConnection(&apifu.TimeBasedConnectionConfig{
 		NamePrefix: "Test",
 		EdgeGetter: func(ctx graphql.FieldContext, minTime time.Time, maxTime time.Time, limit int) (interface{}, error) {
 			i := st.calls
@@ -226,12 +231,33 @@ func newAPI(st *workerState) *apifu.API {
 				},
 			},
 		},
-	}))
+	})
+	cfg.AddQueryField("connection", st.def)
 	api, err := apifu.NewAPI(cfg)
 	if err != nil {
 		panic(err)
 	}
 	return api
+}
+
+// fieldCost asks the connection field's own cost functions: the field's (Resolver, Multiplier) for
+// the given first / last arguments, and the Multiplier of its edges field under the context the
+// field's cost function hands down (-1: none handed down)
+func fieldCost(def *graphql.FieldDefinition, first, last *int) [3]int {
+	args := map[string]interface{}{}
+	if first != nil {
+		args["first"] = *first
+	}
+	if last != nil {
+		args["last"] = *last
+	}
+	fc := def.Cost(graphql.FieldCostContext{Context: context.Background(), Arguments: args})
+	em := -1
+	if fc.Context != nil {
+		edges := def.Type.(*graphql.ObjectType).Fields["edges"]
+		em = edges.Cost(graphql.FieldCostContext{Context: fc.Context, Arguments: map[string]interface{}{}}).Multiplier
+	}
+	return [3]int{fc.Resolver, fc.Multiplier, em}
 }
 
 func workerMain() {
@@ -253,7 +279,8 @@ func workerMain() {
 			hr.Header.Set("Content-Type", "application/json")
 			w := httptest.NewRecorder()
 			api.ServeGraphQL(w, hr)
-			resp, _ := json.Marshal(workResp{Status: w.Code, Body: w.Body.String(), Triples: st.triples, Returns: st.returns, Raised: st.raised, TCCalls: st.tcCalls})
+			resp, _ := json.Marshal(workResp{Status: w.Code, Body: w.Body.String(), Triples: st.triples, Returns: st.returns, Raised: st.raised, TCCalls: st.tcCalls,
+				Cost: fieldCost(st.def, req.First, req.Last)})
 			out.Write(resp)
 			out.WriteByte('\n')
 			out.Flush()
@@ -612,7 +639,7 @@ func presSexp(ps []presT) sexp.Node {
 func (e *env) step(a argSpec, ps []presT) (obsT, sexp.Node) {
 	skipped := e.run.hangs >= maxHangs
 	resp, crashed, hung := e.run.do(&workReq{Edges: e.edges, Getter: e.getter, Pres: ps, TypedNil: e.typedNil, Query: a.query(),
-		TCErr: e.tcErr, TCAsync: e.tcAsync, Zone: e.zone})
+		TCErr: e.tcErr, TCAsync: e.tcAsync, Zone: e.zone, First: a.First, Last: a.Last})
 	o, on := observe(resp, crashed, hung)
 	if skipped {
 		on = sexp.T("skipped-after-hangs")
@@ -633,7 +660,8 @@ func (e *env) step(a argSpec, ps []presT) (obsT, sexp.Node) {
 		tc = sexp.T("err")
 	}
 	return o, sexp.T("step", a.sexp(), sexp.T("info", sexp.Bool(a.Info)), sexp.T("total", sexp.Bool(a.Total)), sexp.T("tc", tc),
-		sexp.T("tccalls", sexp.Int(resp.TCCalls)), sexp.T("pres", presSexp(ps)),
+		sexp.T("tccalls", sexp.Int(resp.TCCalls)), sexp.T("cost", sexp.Int(resp.Cost[0]), sexp.Int(resp.Cost[1]), sexp.Int(resp.Cost[2])),
+		sexp.T("pres", presSexp(ps)),
 		sexp.T("obs", on), sexp.T("triples", sexp.L(ts...)))
 }
 
@@ -933,6 +961,16 @@ var hostileCursors = []string{"", "!!!", "AAAA", "gA", "kQ", "gqROYW5vAQ", "gqRO
 // crafted msgpack documents for DeserializeCursor's struct decoder: nil, arrays, map16 / map32,
 // keys as bin, every integer code, duplicate and unknown keys, missing fields, trailing bytes,
 // truncation, a line break inside the base64 text
+// dirtyTail sets the unused low bits of the last base64 character of a final partial quantum
+func dirtyTail(s string) string {
+	const alphabet = "ABCDEFGHIJKLMNOPQRSTUVWXYZabcdefghijklmnopqrstuvwxyz0123456789-_"
+	if len(s)%4 < 2 {
+		return s
+	}
+	v := strings.IndexByte(alphabet, s[len(s)-1])
+	return s[:len(s)-1] + string(alphabet[v|1])
+}
+
 var craftedCursors = func() []string {
 	enc := func(b ...byte) string { return base64.RawURLEncoding.EncodeToString(b) }
 	nano := []byte{0xa4, 'N', 'a', 'n', 'o'}
@@ -956,24 +994,25 @@ var craftedCursors = func() []string {
 		enc(0xdc, 0, 2, 0xcc, 200, 0xd9, 1, 'a'), // array16, uint8, str8
 		enc(cat([]byte{0xde, 0, 2}, nano, []byte{0xcd, 1, 0x2c}, id, []byte{0xda, 0, 1, 'a'})...), // map16, uint16 300, str16
 		enc(cat([]byte{0xdf, 0, 0, 0, 2}, nano, []byte{0xce, 0, 0, 0, 100}, id, []byte{0xdb, 0, 0, 0, 1, 'c'})...),
-		enc(cat([]byte{0x83}, nano, []byte{1}, nano, []byte{0x64}, id, []byte{0xa1, 'b'})...), // duplicate key: the later one counts
-		enc(cat([]byte{0x81, 0xc4, 4, 'N', 'a', 'n', 'o', 0x64})...),                          // key as bin8, Id missing
-		enc(cat([]byte{0x81}, id, []byte{0xa1, 'z'})...),                                      // Nano missing
-		enc(cat([]byte{0x82}, id, []byte{0xc0}, nano, []byte{0xc0})...),                       // both nil
-		enc(cat([]byte{0x81}, nano, []byte{0xcf, 255, 255, 255, 255, 255, 255, 255, 255})...), // uint64 max = int64 -1
-		enc(cat([]byte{0x81}, nano, []byte{0xd1, 0xff, 0x9c})...),                             // int16 -100
-		enc(cat([]byte{0x81}, nano, []byte{0xd2, 0x80, 0, 0, 0})...),                          // int32 min
-		enc(cat([]byte{0x81}, nano, []byte{0xe0})...),                                         // negative fixnum -32
-		enc(cat([]byte{0x82, 0xa1, 'x', 1}, nano, []byte{0x64})...),                           // unknown key (skipped)
-		enc(cat(valid, []byte{0xff, 0xff})...),                                                // trailing bytes
-		enc(valid[:9]...),                                                                     // truncated integer
-		enc(cat([]byte{0x82}, nano, []byte{0xa1, 'x'})...),                                    // a string where the integer belongs
-		enc(cat([]byte{0x81}, id, []byte{0x05})...),                                           // an integer where the string belongs
-		enc(0xdf, 255, 255, 255, 255),                                                         // map32 of 4 billion entries, no bytes
-		enc(0xde, 0),                                                                          // truncated map16 length
-		vs[:10] + "\n" + vs[10:],                                                              // a line break inside the base64 text
-		vs + "=",                                                                              // padding is not accepted
-		vs[:len(vs)-1],                                                                        // last character missing
+		enc(cat([]byte{0x83}, nano, []byte{1}, nano, []byte{0x64}, id, []byte{0xa1, 'b'})...),                                      // duplicate key: the later one counts
+		enc(cat([]byte{0x81, 0xc4, 4, 'N', 'a', 'n', 'o', 0x64})...),                                                               // key as bin8, Id missing
+		enc(cat([]byte{0x81}, id, []byte{0xa1, 'z'})...),                                                                           // Nano missing
+		enc(cat([]byte{0x82}, id, []byte{0xc0}, nano, []byte{0xc0})...),                                                            // both nil
+		enc(cat([]byte{0x81}, nano, []byte{0xcf, 255, 255, 255, 255, 255, 255, 255, 255})...),                                      // uint64 max = int64 -1
+		enc(cat([]byte{0x81}, nano, []byte{0xd1, 0xff, 0x9c})...),                                                                  // int16 -100
+		enc(cat([]byte{0x81}, nano, []byte{0xd2, 0x80, 0, 0, 0})...),                                                               // int32 min
+		enc(cat([]byte{0x81}, nano, []byte{0xe0})...),                                                                              // negative fixnum -32
+		enc(cat([]byte{0x82, 0xa1, 'x', 1}, nano, []byte{0x64})...),                                                                // unknown key (skipped)
+		enc(cat(valid, []byte{0xff, 0xff})...),                                                                                     // trailing bytes
+		enc(valid[:9]...),                                                                                                          // truncated integer
+		enc(cat([]byte{0x82}, nano, []byte{0xa1, 'x'})...),                                                                         // a string where the integer belongs
+		enc(cat([]byte{0x81}, id, []byte{0x05})...),                                                                                // an integer where the string belongs
+		enc(0xdf, 255, 255, 255, 255),                                                                                              // map32 of 4 billion entries, no bytes
+		enc(0xde, 0),                                                                                                               // truncated map16 length
+		vs[:10] + "\n" + vs[10:],                                                                                                   // a line break inside the base64 text
+		vs + "=",                                                                                                                   // padding is not accepted
+		"wB", "gP", dirtyTail(vs), dirtyTail(enc(cat([]byte{0x81}, nano, []byte{0x64})...)), dirtyTail(enc(0x92, 0x64, 0xa1, 'b')), // unused trailing bits set (accepted: the decoder is not strict)
+		vs[:len(vs)-1], // last character missing
 	}
 }()
 
